@@ -32,7 +32,7 @@ def make_tree(base, nfans=1, orig_mode=2, orig_pwm=100, with_enable=True, extra_
 
 
 def make_config(base, chip, nfans=1, never_stop=False, curve="linear", algo="direct", api=False, file_fans=0,
-                tick="5ms", api_port=19101, stats_port=19100):
+                tick="5ms", api_port=19101, stats_port=19100, cmd_fans=0):
     lines = [f"dbPath: {base}/fan2go.db", f"controllerAdjustmentTickRate: {tick}", "rpmPollingRate: 5ms",
              "tempSensorPollingRate: 5ms", "runFanInitializationInParallel: true"]
     if api:
@@ -46,6 +46,19 @@ def make_config(base, chip, nfans=1, never_stop=False, curve="linear", algo="dir
     for i in range(1, file_fans + 1):
         open(os.path.join(base, f"filefan{i}"), "w").write("90\n")
         lines += [f"  - id: ff{i}", "    file:", f"      path: {base}/filefan{i}", "    curve: c1"]
+    for i in range(1, cmd_fans + 1):
+        # a cmd fan: the register is a plain file, setPwm / getPwm are root-owned scripts (every value handed to setPwm is
+        # appended to <register>.log)
+        reg = os.path.join(base, f"cmdfan{i}_pwm")
+        open(reg, "w").write("90\n")
+        setp, getp = os.path.join(base, f"cmdfan{i}_set.sh"), os.path.join(base, f"cmdfan{i}_get.sh")
+        open(setp, "w").write(f"#!/bin/sh\necho \"$1\" > {reg}\necho \"$1\" >> {reg}.log\n")
+        open(getp, "w").write(f"#!/bin/sh\ncat {reg}\n")
+        for f in (setp, getp):
+            os.chmod(f, 0o755)
+            os.chown(f, 0, 0)
+        lines += [f"  - id: cf{i}", "    cmd:", "      setPwm:", f"        exec: {setp}", "        args: [\"%pwm%\"]",
+                  "      getPwm:", f"        exec: {getp}", "    curve: c1"]
     lines += ["sensors:", "  - id: s1", "    hwmon:", "      platform: fakechip", "      index: 1"]
     lines.append("curves:")
     if curve == "pid":
